@@ -399,6 +399,7 @@ def enter_world(root, sc, faults=None, record_events=True):
     for k, v in w.get("env", {}).items():
         os.environ[k] = v.replace("$W", root)
     sim = rt.Sim(root, sc.get("faults", []) if faults is None else faults, sc.get("listing_seed", 0), record_events)
+    sim.fifo_content = dict(w.get("fifo_content", {}))
     rt.CUR = sim
     rt.install_seams()
     return sim
